@@ -160,6 +160,14 @@ def nextSpace : LastTok → SpaceState
   | .close _ => .never
   | .tok t => nextSpaceKind t.kind
 
+/-- `needs_space` of `update_buffer`: does the token behind `last` get a blank in front -/
+def needsSpace (last : LastTok) (k : Kind) : Bool :=
+  match nextSpace last with
+  | .ident => identLike k
+  | .punctuation => !identLike k
+  | .always => true
+  | .never => false
+
 /-! ## `ParsedMacroArg` -/
 
 /-- `MacroArgKind`.  Strings are kept as pieces so that their tokens stay visible; `name`, `sep`,
@@ -248,14 +256,8 @@ def addOther (s : PState) : PState :=
 /-- `update_buffer` -/
 def updateBuffer (s : PState) (t : Tok) : PState :=
   if s.bufEmpty then { s with startTok := some t, buf := s.buf ++ [ptok t] }
-  else
-    let needsSpace := match nextSpace s.lastTok with
-      | .ident => identLike t.kind
-      | .punctuation => !identLike t.kind
-      | .always => true
-      | .never => false
-    if forceSpaceBefore t.kind || needsSpace then { s with buf := s.buf ++ [sp, ptok t] }
-    else { s with buf := s.buf ++ [ptok t] }
+  else if forceSpaceBefore t.kind || needsSpace s.lastTok t.kind then { s with buf := s.buf ++ [sp, ptok t] }
+  else { s with buf := s.buf ++ [ptok t] }
 
 end PState
 
@@ -276,66 +278,71 @@ def finish (s : PState) : Option (List Arg) :=
     else if !s.bufEmpty then some (s.addOther).result else some s.result
   | _ => none
 
-mutual
-/-- One tree of the `while let Some(tok) = iter.next()` loop (or of the loops inside
+/-- A plain token in the `while let Some(tok) = iter.next()` loop of `parse` (or in the loops inside
 `add_meta_variable` / `add_repeat` when one of them holds the iterator). -/
-def stepTT (s : PState) : TT → Option PState
-  | .tok t =>
-    match s.mode with
-    | .frag colon =>
-      -- `add_meta_variable`: only a plain identifier is a fragment specifier
-      if t.kind == .Ident then
-        some { s with result := s.result ++ [.metaVar t.text s.buf], buf := [], isMetaVar := false,
-                      mode := .normal, lastTok := .tok colon }
-      else none
-    | .rep d args buffer =>
-      if isRepeatOp t.kind then
-        -- `/` in front of `*` would open a comment
-        if (match buffer with | some b => b.text == ['/'] | none => false) && t.kind == .Star then none else
-        let another := match buffer with
-          | none => none
-          | some b => if (RF.Comment.trim b.text).isEmpty then none else some [ptok b]
-        some { s with result := s.result ++ [.repeat d args another t], mode := .normal,
-                      isMetaVar := false, lastTok := .close d }
-      else if isDoc t.kind then none
-      else match buffer with
-        | none => some { s with mode := .rep d args (some t) }
-        | some _ => none
-    | .normal =>
-      if t.kind == .Dollar then
-        if s.isMetaVar then none
-        else
-          let s := if !s.bufEmpty then s.addSeparator else s
-          some { s with isMetaVar := true, startTok := some t, lastTok := .tok t }
-      else if t.kind == .Colon && s.isMetaVar then some { s with mode := .frag t }
-      else if isDoc t.kind then none
-      else some { (s.updateBuffer t) with lastTok := .tok t }
-  | .delim d inner =>
-    match s.mode with
-    | .normal =>
-      let flushed : Option PState :=
-        if !s.bufEmpty then
-          if s.isMetaVar then none
-          else if nextSpace s.lastTok == .always then some s.addSeparator else some s.addOther
-        else some s
-      match flushed with
-      | none => none
-      | some s =>
-        match parseList {} inner with
+def stepTok (s : PState) (t : Tok) : Option PState :=
+  match s.mode with
+  | .frag colon =>
+    -- `add_meta_variable`: only a plain identifier is a fragment specifier
+    if t.kind == .Ident then
+      some { s with result := s.result ++ [.metaVar t.text s.buf], buf := [], isMetaVar := false,
+                    mode := .normal, lastTok := .tok colon }
+    else none
+  | .rep d args buffer =>
+    if isRepeatOp t.kind then
+      -- `/` in front of `*` would open a comment
+      if (match buffer with | some b => b.text == ['/'] | none => false) && t.kind == .Star then none else
+      let another := match buffer with
         | none => none
-        | some sub =>
-          match finish sub with
-          | none => none
-          | some args =>
-            if s.isMetaVar then some { s with mode := .rep d args none }
-            else some { s with result := s.result ++ [.delimited d args], lastTok := .close d }
-    | _ => none
+        | some b => if (RF.Comment.trim b.text).isEmpty then none else some [ptok b]
+      some { s with result := s.result ++ [.repeat d args another t], mode := .normal,
+                    isMetaVar := false, lastTok := .close d }
+    else if isDoc t.kind then none
+    else match buffer with
+      | none => some { s with mode := .rep d args (some t) }
+      | some _ => none
+  | .normal =>
+    if t.kind == .Dollar then
+      if s.isMetaVar then none
+      else
+        let s := if !s.bufEmpty then s.addSeparator else s
+        some { s with isMetaVar := true, startTok := some t, lastTok := .tok t }
+    else if t.kind == .Colon && s.isMetaVar then some { s with mode := .frag t }
+    else if isDoc t.kind then none
+    else some { (s.updateBuffer t) with lastTok := .tok t }
+
+/-- A delimited group in the loop of `parse`; `sub` is what the fresh parser makes of its trees. -/
+def stepDelim (s : PState) (d : Delim) (sub : Option (List Arg)) : Option PState :=
+  match s.mode with
+  | .normal =>
+    let flushed : Option PState :=
+      if !s.bufEmpty then
+        if s.isMetaVar then none
+        else if nextSpace s.lastTok == .always then some s.addSeparator else some s.addOther
+      else some s
+    match flushed, sub with
+    | some s, some args =>
+      if s.isMetaVar then some { s with mode := .rep d args none }
+      else some { s with result := s.result ++ [.delimited d args], lastTok := .close d }
+    | _, _ => none
+  | _ => none
+
+mutual
+/-- One tree of the loop. -/
+def stepTT (s : PState) : TT → Option PState
+  | .tok t => stepTok s t
+  | .delim d inner =>
+    stepDelim s d (match parseList {} inner with
+      | none => none
+      | some sub => finish sub)
+termination_by structural t => t
 def parseList (s : PState) : List TT → Option PState
   | [] => some s
   | t :: ts =>
     match stepTT s t with
     | none => none
     | some s' => parseList s' ts
+termination_by structural ts => ts
 end
 
 /-- `MacroArgParser::new().parse(tokens)` -/
@@ -343,6 +350,21 @@ def parseMatcher (ts : List TT) : Option (List Arg) :=
   match parseList {} ts with
   | none => none
   | some s => finish s
+
+/-- What every token of a real stream satisfies: its text is not blank, `$` and `:` are spelled
+`$` and `:` (the rewrite prints these two itself). -/
+def Tok.ok (t : Tok) : Bool :=
+  !(RF.Comment.trim t.text).isEmpty && (t.kind != .Dollar || t.text == ['$']) &&
+    (t.kind != .Colon || t.text == [':'])
+
+mutual
+def TT.ok : TT → Bool
+  | .tok t => t.ok
+  | .delim _ inner => okList inner
+def okList : List TT → Bool
+  | [] => true
+  | t :: ts => t.ok && okList ts
+end
 
 /-! ## `MacroArgKind::rewrite`, `wrap_macro_args` (`macros.rs:583-700, 992-1060`) -/
 
